@@ -236,7 +236,7 @@ def _load(name):
     sp = _ilu.spec_from_file_location(name, os.path.join(os.path.dirname(__file__), name + '.py'))
     m = _ilu.module_from_spec(sp); sp.loader.exec_module(m); return m
 UNITS += _load('C02fi').UNITS
-UNITS += [dict(u) for u in _load('C03').UNITS if u['name'] in ('range', 'services_by_group', 'read_by_group_type')]
+UNITS += [dict(u) for u in _load('C03').UNITS if u['name'] in ('range', 'services_by_group', 'read_by_group_type', 'find_by_type_value')]
 META = dict(
     level='proof',
     explanation="Read By Type, real bodies: all_attributes (loop contract), last_handle_index, check_size_and_handle_range<A,B>, "
